@@ -21,6 +21,7 @@ import (
 	"github.com/echovault/sugardb/internal"
 	"github.com/echovault/sugardb/internal/clock"
 	"github.com/echovault/sugardb/internal/constants"
+	"github.com/echovault/sugardb/internal/verifhook"
 	"io"
 	"net"
 	"strings"
@@ -177,6 +178,7 @@ func (server *SugarDB) handleCommand(ctx context.Context, message []byte, conn *
 			return nil, err
 		}
 
+		verifhook.Point("handlecommand.handler.done")
 		if internal.IsWriteCommand(command, subCommand) && !replay {
 			server.connInfo.mut.RLock()
 			server.aofEngine.LogCommand(server.connInfo.tcpClients[conn].Database, message)
